@@ -180,36 +180,79 @@ func (c *Ctx) newickFields(wt, wn, pi, pp *FuncInfo) {
 }
 
 // runeConsts lists the rune constants used as case values / comparison operands on variable v.
-func runeCases(info *types.Info, body ast.Node, v types.Object) (plain map[string]bool, conditional map[string]bool) {
+// runeCases: the runes to which the scanner gives a dedicated token. For every `return TOKEN, ..`
+// of body, the conditions on its path (switch cases on v, if / else-if chains, early returns) are
+// collected; a condition `v == 'x'` names the rune; a further condition that does not mention v
+// (`!ignoreSemiColumn`) makes the token conditional.
+func (c *Ctx) runeCases(info *types.Info, body *ast.BlockStmt, v types.Object) (plain map[string]bool, conditional map[string]bool) {
 	plain, conditional = map[string]bool{}, map[string]bool{}
+	mentions := func(e ast.Expr, o types.Object) bool {
+		f := false
+		ast.Inspect(e, func(n ast.Node) bool {
+			if id, ok := n.(*ast.Ident); ok && identObj(info, id) == o {
+				f = true
+			}
+			return !f
+		})
+		return f
+	}
+	lit := func(e ast.Expr) (string, bool) {
+		tv, ok := info.Types[e]
+		if !ok || tv.Value == nil || tv.Value.Kind() != constant.Int {
+			return "", false
+		}
+		if _, isLit := unparen(e).(*ast.BasicLit); !isLit {
+			return "", false // named constant such as eof
+		}
+		r, _ := constant.Int64Val(tv.Value)
+		return string(rune(r)), true
+	}
 	ast.Inspect(body, func(n ast.Node) bool {
-		sw, ok := n.(*ast.SwitchStmt)
-		if !ok || identObj(info, sw.Tag) != v {
+		if _, isLit := n.(*ast.FuncLit); isLit {
+			return false
+		}
+		rs, ok := n.(*ast.ReturnStmt)
+		if !ok || len(rs.Results) == 0 {
 			return true
 		}
-		for _, s := range sw.Body.List {
-			cc := s.(*ast.CaseClause)
-			for _, e := range cc.List {
-				tv, ok := info.Types[e]
-				if !ok || tv.Value == nil || tv.Value.Kind() != constant.Int {
-					continue
-				}
-				if _, isLit := unparen(e).(*ast.BasicLit); !isLit {
-					continue // named constant such as eof
-				}
-				r, _ := constant.Int64Val(tv.Value)
-				// a case whose body is a guarded return is conditional
-				cond := false
-				if len(cc.Body) == 1 {
-					if _, isIf := cc.Body[0].(*ast.IfStmt); isIf {
-						cond = true
+		conds, okc := c.pathConds(info, body, rs, false)
+		if !okc {
+			return true
+		}
+		var runes []string
+		cond := false
+		for _, cd := range flattenConds(conds) {
+			if cd.Tag != nil {
+				if identObj(info, cd.Tag) == v && !cd.Neg {
+					for _, e := range cd.Vals {
+						if r, ok := lit(e); ok {
+							runes = append(runes, r)
+						}
 					}
 				}
-				if cond {
-					conditional[string(rune(r))] = true
-				} else {
-					plain[string(rune(r))] = true
+				continue
+			}
+			if cd.Expr == nil {
+				continue
+			}
+			if be, ok := unparen(cd.Expr).(*ast.BinaryExpr); ok && be.Op == token.EQL && !cd.Neg {
+				for _, side := range [][2]ast.Expr{{be.X, be.Y}, {be.Y, be.X}} {
+					if identObj(info, side[0]) == v {
+						if r, ok := lit(side[1]); ok {
+							runes = append(runes, r)
+						}
+					}
 				}
+			}
+			if !mentions(cd.Expr, v) {
+				cond = true
+			}
+		}
+		for _, r := range runes {
+			if cond {
+				conditional[r] = true
+			} else {
+				plain[r] = true
 			}
 		}
 		return true
@@ -223,12 +266,25 @@ func (c *Ctx) newickTables(wt, wn, pi, sc, si, ii *FuncInfo) {
 	// the scanned rune variable: the switch tag in Scan
 	var chObj types.Object
 	ast.Inspect(sc.Decl.Body, func(n ast.Node) bool {
-		if sw, ok := n.(*ast.SwitchStmt); ok && sw.Tag != nil && chObj == nil {
-			chObj = identObj(linfo, sw.Tag)
+		// the rune read first: ch := s.read()
+		if as, ok := n.(*ast.AssignStmt); ok && chObj == nil && len(as.Lhs) == 1 && len(as.Rhs) == 1 {
+			if call, ok := unparen(as.Rhs[0]).(*ast.CallExpr); ok {
+				if g := calleeOf(linfo, call); g != nil && g.Name() == "read" {
+					chObj = identObj(linfo, as.Lhs[0])
+				}
+			}
 		}
 		return true
 	})
-	plain, cond := runeCases(linfo, sc.Decl.Body, chObj)
+	if chObj == nil {
+		ast.Inspect(sc.Decl.Body, func(n ast.Node) bool {
+			if sw, ok := n.(*ast.SwitchStmt); ok && sw.Tag != nil && chObj == nil {
+				chObj = identObj(linfo, sw.Tag)
+			}
+			return true
+		})
+	}
+	plain, cond := c.runeCases(linfo, sc.Decl.Body, chObj)
 	// isIdent: ch != 'x' conjuncts; the one or-ed with the flag is conditional
 	iplain, icond := map[string]bool{}, map[string]bool{}
 	chI := paramObj(linfo, ii.Decl, 0)
@@ -257,12 +313,50 @@ func (c *Ctx) newickTables(wt, wn, pi, sc, si, ii *FuncInfo) {
 			}
 		}
 	}
-	ast.Inspect(ii.Decl.Body, func(n ast.Node) bool {
-		if r, ok := n.(*ast.ReturnStmt); ok && len(r.Results) == 1 {
-			walk(r.Results[0], false)
+	// isIdent is a pure predicate of (rune, flag): evaluate it on every ASCII rune and both flag values
+	// (abstract interpreter on singleton values: any way of writing the predicate gives the same table)
+	evaluated := false
+	{
+		ai := c.newAbsInt()
+		okAll := true
+		tp, tc := map[string]bool{}, map[string]bool{}
+		for r := rune(9); r < 127 && okAll; r++ {
+			var res [2]string
+			for k, flag := range []string{"false", "true"} {
+				sm := ai.summary(ii, []aval{aOf(constAtom(constant.MakeInt64(int64(r)))), aOf(flag)})
+				if sm == nil || len(sm.results) != 1 || !(sm.results[0].is("true") || sm.results[0].is("false")) {
+					okAll = false
+					break
+				}
+				if sm.results[0].is("true") {
+					res[k] = "true"
+				} else {
+					res[k] = "false"
+				}
+			}
+			if !okAll {
+				break
+			}
+			switch {
+			case res[0] == "false" && res[1] == "false":
+				tp[string(r)] = true
+			case res[0] == "false" && res[1] == "true":
+				tc[string(r)] = true
+			}
 		}
-		return true
-	})
+		if okAll {
+			evaluated = true
+			iplain, icond = tp, tc
+		}
+	}
+	if !evaluated {
+		ast.Inspect(ii.Decl.Body, func(n ast.Node) bool {
+			if r, ok := n.(*ast.ReturnStmt); ok && len(r.Results) == 1 {
+				walk(r.Results[0], false)
+			}
+			return true
+		})
+	}
 	k1, k2 := strings.Join(sortedKeys(plain), "")+"|"+strings.Join(sortedKeys(cond), ""), strings.Join(sortedKeys(iplain), "")+"|"+strings.Join(sortedKeys(icond), "")
 	if len(plain) < 5 {
 		c.Undecided("TABLE", "newick/token-runes", sc.Decl.Pos(), "fewer than 5 dedicated token runes found in Scanner.Scan")
